@@ -38,9 +38,11 @@ type (
 		wgBarrier   syncx.Barrier
 		confirmChan chan lang.PlaceholderType
 		inflight    int32
-		guarded     bool
-		newTicker   func(duration time.Duration) timex.Ticker
-		lock        sync.Mutex
+		// signaled, with lock held, when inflight drops; Wait blocks on it
+		inflightCond *sync.Cond
+		guarded      bool
+		newTicker    func(duration time.Duration) timex.Ticker
+		lock         sync.Mutex
 	}
 )
 
@@ -56,6 +58,7 @@ func NewPeriodicalExecutor(interval time.Duration, container TaskContainer) *Per
 			return timex.NewTicker(d)
 		},
 	}
+	executor.inflightCond = sync.NewCond(&executor.lock)
 	proc.AddShutdownListener(func() {
 		executor.Flush()
 	})
@@ -91,6 +94,14 @@ func (pe *PeriodicalExecutor) Sync(fn func()) {
 // Wait waits the execution to be done.
 func (pe *PeriodicalExecutor) Wait() {
 	pe.Flush()
+	// a batch removed by Add on reaching the threshold is not in the container anymore
+	// and not yet counted by waitGroup; inflight covers it until the background
+	// goroutine has entered its execution.
+	pe.lock.Lock()
+	for atomic.LoadInt32(&pe.inflight) > 0 {
+		pe.inflightCond.Wait()
+	}
+	pe.lock.Unlock()
 	pe.wgBarrier.Guard(func() {
 		pe.waitGroup.Wait()
 	})
@@ -129,8 +140,13 @@ func (pe *PeriodicalExecutor) backgroundFlush() {
 			select {
 			case vals := <-pe.commander:
 				commanded = true
-				atomic.AddInt32(&pe.inflight, -1)
+				// enter the execution before giving up inflight, so that Wait always
+				// sees the batch either in inflight or in waitGroup
 				pe.enterExecution()
+				pe.lock.Lock()
+				atomic.AddInt32(&pe.inflight, -1)
+				pe.inflightCond.Broadcast()
+				pe.lock.Unlock()
 				pe.confirmChan <- lang.Placeholder
 				pe.executeTasks(vals)
 				last = timex.Now()
